@@ -121,6 +121,43 @@ def decode_strict(n):
     return P.explore(path, {"s": s}, replay)
 
 
+def int_decode_strict(n):
+    """for all s in {0..255}^n (n >= 1): base64_to_int(s) returns only if s.rstrip('=') is in the alphabet (the integer decoder is as strict as
+    the octet decoder: junk inside a JWK integer member is refused); a failure is a ValueError."""
+    U = _util()
+    s = sym_bytes(n, "c")
+    cs = s.items
+    alts = []
+    for k in range(0, n + 1):
+        m = n - k
+        if m % 4 == 1:
+            continue
+        conds = [P.in_set(c, URLSET) for c in cs[:m]] + [c == 61 for c in cs[m:]]
+        alts.append(z3.And(*conds) if conds else z3.BoolVal(True))
+    accept_possible = z3.Or(*alts) if alts else z3.BoolVal(False)
+
+    def path(it):
+        o = outcome(it, U.base64_to_int, s)
+        if o[0] == "exc":
+            return (z3.BoolVal(isinstance(o[1], ValueError)), "rejected")
+        return (accept_possible, "accepted")
+
+    def replay(cex):
+        x = cex["s"]
+        st = x.rstrip(b"=")
+        spec_ok = set(st) <= set(URLSET) and len(st) % 4 != 1
+        try:
+            U.base64_to_int(x)
+            bad, what = not spec_ok, "accepted"
+        except ValueError:
+            bad, what = False, "rejected with ValueError"
+        except Exception as e:  # noqa
+            bad, what = True, "raised %s" % type(e).__name__
+        return {"violated": bad, "key": "int-strict-decode", "detail": "base64_to_int(%r) %s" % (x, what)}
+
+    return P.explore(path, {"s": s}, replay)
+
+
 def int_roundtrip(nbytes):
     """for all n with exactly `nbytes` significant octets (2^(8(nbytes-1)) <= n < 2^(8 nbytes)):
     int_to_base64(n) is the unpadded base64url of the minimal big-endian encoding and base64_to_int inverts it."""
@@ -416,6 +453,7 @@ def plan(tier):
     obls += [Obl(M, "roundtrip", {"n": n}, "decode(encode(b)) == b, alphabet", 900) for n in rt]
     obls += [Obl(M, "decode_strict", {"n": n}, "strict decoding of all byte strings of length n", 1800) for n in ds]
     obls += [Obl(M, "int_roundtrip", {"nbytes": n}, "minimal big-endian integer codec", 1800) for n in ints]
+    obls += [Obl(M, "int_decode_strict", {"n": n}, "the integer decoder refuses every text the octet decoder refuses", 1800) for n in ds if n >= 1]
     obls += [Obl(M, "int_negative", {}, "negative integers refused", 300)]
     obls += [Obl(M, "fixed_int_roundtrip", {"bits": b}, "fixed-width integer codec (R||S halves)", 1800) for b in fixed]
     obls += [Obl(M, "decode_int_any", {"nbytes": n}, "decode_int = OS2IP", 900) for n in dec_any]
